@@ -457,8 +457,34 @@ def _rewrite_m1(text, rw):
     return "".join(out), n
 
 
+def _rewrite_hoist(text, rw):
+    """N1 nested-fn hoisting: a `fn` item nested in the function body is removed from the text (fn items
+    capture nothing, so hoisting to module level does not change meaning); the contract file supplies the
+    item at module level (as a contract proved in another unit, or as an assumed one)."""
+    name = rw["hoist_fn"]
+    toks = lex(text)
+    hits = []
+    # skip the outermost fn (token 0..): search inside its body only
+    fn_i, b = _fn_sig(toks)
+    e = match_close(toks, b)
+    for (s0, e0, kw) in _find_in(toks, b + 1, e, "fn " + name):
+        hits.append((s0, e0))
+    if len(hits) != 1:
+        return text, len(hits)
+    s0, e0 = hits[0]
+    return text[:toks[s0].start] + text[toks[e0].end:], 1
+
+
 def apply_rewrites(text, rewrites, log):
     for rw in rewrites or []:
+        if rw.get("hoist_fn"):
+            new, n = _rewrite_hoist(text, rw)
+            if n != 1:
+                raise VxError("lost anchor: rewrite N1 nested fn %s found %d times" % (rw["hoist_fn"], n))
+            log.append({"id": rw.get("id", "N1"), "pattern": "nested fn " + rw["hoist_fn"], "replace": "(hoisted)",
+                        "count": 1, "why": rw.get("why", "")})
+            text = new
+            continue
         if rw.get("macro"):
             new, n = _rewrite_m1(text, rw)
             if n != rw.get("count", 1):
